@@ -407,7 +407,9 @@ class Decimal(Element):
 
     # Fixing the scale mustn't depend on the precision (28 digits by default) or
     # the traps of whatever arithmetic context the calling thread happens to have
-    QUANTIZE_CONTEXT = decimal.Context(prec=decimal.MAX_PREC)
+    QUANTIZE_CONTEXT = decimal.Context(
+        prec=decimal.MAX_PREC, traps=[decimal.InvalidOperation]
+    )
 
     def __init__(self, *args, **kwargs):
         super().__init__(*args, **kwargs)
@@ -435,10 +437,14 @@ class Decimal(Element):
     @convert.register
     def _convert_str(self, value: str) -> decimal.Decimal:
         # Handle Euro-style decimal separators (comma)
+        # N.B. without the InvalidOperation trap, text that isn't a number comes
+        # back as NaN instead of raising - use our context, not the thread's
         try:
-            dec = decimal.Decimal(value)
+            dec = decimal.Decimal(value, context=self.QUANTIZE_CONTEXT)
         except decimal.InvalidOperation:
-            dec = decimal.Decimal(value.replace(",", "."))
+            dec = decimal.Decimal(
+                value.replace(",", "."), context=self.QUANTIZE_CONTEXT
+            )
 
         if not dec.is_finite():
             raise OFXSpecError(f"'{value}' is not a finite number")
